@@ -38,7 +38,8 @@ ASSUMPTIONS = [
     "type bits 000 (refuse or treat as regular frame); RawSocket PING/PONG frames (closing the transport, or answering the PING with "
     "a PONG of the same payload / ignoring the PONG and carrying on); a RawSocket message of exactly 2^24 octets (not expressible in the 24-bit length "
     "field); how the transport is closed on RawSocket (abort or close both count as closed); frames that follow a rejected one in the "
-    "same read; onClose (0 or 1) for a session whose onOpen raised",
+    "same read.  NOT grey: a session whose onOpen(transport) was invoked counts as attached even when that onOpen raised (before or "
+    "after storing the transport / sending on it): it must get onClose exactly once; only a session whose constructor raised gets none",
     "after attachment an exception that reaches the framework is recorded (counters 'escape:...') and handled like the reactor / "
     "selector transport does (connection torn down); only escapes during the opening handshake are violations, as the statement says",
     "WebSocket status codes: read from the close frame on the wire (failByDrop=False) and from the argument of _fail_connection "
@@ -57,7 +58,7 @@ DECIDING = {
     "client_hello_checked": 1000, "ws_nego_common": 500, "ws_nego_nocommon": 500, "ws_frames_checked": 500,
     "stream_msgs_compared": 2000, "wire_frames_checked": 300, "limit_send_over": 40, "limit_send_within": 80,
     "limit_recv_within": 4, "limit_recv_over_rejected": 10, "corrupt_cases": 800, "corrupt_cases_closed_once": 700,
-    "ws_status_checked": 300, "rs_close_checked": 200, "onclose_checked": 100000, "mixed_delivered_ok": 60, "mixed_refused": 4,
+    "ws_status_checked": 300, "rs_close_checked": 200, "onclose_checked": 100000, "mixed_delivered_ok": 60, "mixed_refused": 4, "open_raise_onclose_checked": 100,
 }
 
 BASE = ["json", "msgpack", "cbor", "ubjson"]
@@ -76,11 +77,13 @@ def _private_nvx_env():
     import shutil
     import time
 
-    for attempt in range(5):
-        src = build_nvx.build("ship")
-        dst = os.path.join(os.path.dirname(src), "c13-" + os.path.basename(src))
+    from vf import bootstrap
+    dst = os.path.join(bootstrap.VERIF_ROOT, ".build", "c13-nvx-ship-%s" % build_nvx.source_digest("ship"))
+    for attempt in range(6):
         try:
             if not os.path.exists(os.path.join(dst, "BUILD_OK")):
+                # (concurrent builders of the same shared directory can trip over each other: retry)
+                src = build_nvx.build("ship")
                 tmp = "%s.tmp%d" % (dst, os.getpid())
                 shutil.rmtree(tmp, ignore_errors=True)
                 shutil.copytree(src, tmp)
@@ -90,8 +93,8 @@ def _private_nvx_env():
                 os.replace(tmp, dst)
             os.utime(dst)
             break
-        except OSError:
-            time.sleep(0.5)
+        except (OSError, RuntimeError):
+            time.sleep(1.0 + attempt)
     else:
         raise RuntimeError("could not stage the NVX build")
     parent = os.path.dirname(dst)
@@ -282,7 +285,7 @@ def gen_corrupt(tier, seed, fw):
                     if role == "server":
                         continue
                     positions = [0, 1]
-                elif ck in ("open-raises", "ctor-raises"):
+                elif ck.startswith("open-raises") or ck == "ctor-raises":
                     positions = [0]
                 elif ck.startswith("sess-"):
                     positions = list(range(n))
@@ -298,8 +301,8 @@ def gen_corrupt(tier, seed, fw):
                                    "peer_replies": rng.random() < 0.6,
                                    "max_size": rng.choice([None, 2 ** 12]) if (fw == "tx" and tr == "rs") else None}
         for victim in ("server", "client"):
-            for ck in ("sess-runtime", "sess-protocol", "open-raises"):
-                for pos in ([0] if ck == "open-raises" else range(n)):
+            for ck in ("sess-runtime", "sess-protocol", "open-raises", "open-raises-early", "open-raises-sent"):
+                for pos in ([0] if ck.startswith("open-raises") else range(n)):
                     for ser in BASE:
                         yield {"kind": "pair-boom", "tr": tr, "ser": ser, "ckind": ck, "pos": pos, "n": n, "victim": victim,
                                "policy": rng.choice(POLICIES), "seed": rng.randint(0, 10 ** 6), "fail_by_drop": rng.random() < 0.5}
